@@ -61,6 +61,9 @@ pub enum AdaptiveCase {
         initial: usize,
         callers: Vec<Caller>,
         order: Vec<u8>,
+        /// callers keep the resolved response future alive for this long before dropping it
+        #[serde(default)]
+        hold: Option<u64>,
     },
 }
 
@@ -134,8 +137,9 @@ fn case_strategy(tier: Tier) -> BoxedStrategy<AdaptiveCase> {
         prop::collection::vec(caller, 2..=callers_hi),
         prop::collection::vec(any::<u8>(), 0..=40),
         any::<bool>(),
+        prop_oneof![3 => Just(None), 1 => (1u64..=40).prop_map(Some)],
     )
-        .prop_map(|(vegas, min, extra, initial, mut callers, order, two_services)| {
+        .prop_map(|(vegas, min, extra, initial, mut callers, order, two_services, hold)| {
             if !two_services {
                 for c in callers.iter_mut() {
                     c.sibling = false;
@@ -148,6 +152,7 @@ fn case_strategy(tier: Tier) -> BoxedStrategy<AdaptiveCase> {
                 initial,
                 callers,
                 order,
+                hold,
             }
         });
     prop_oneof![3 => sched_case, 2 => sim_case].boxed()
@@ -344,6 +349,7 @@ async fn run_sim_generic<A: ConcurrencyAlgorithm + 'static>(
     algorithm: A,
     callers: &[Caller],
     order: &[u8],
+    hold: Option<u64>,
 ) -> SimVerdict {
     let violations: Arc<Mutex<Vec<String>>> = Arc::new(Mutex::new(vec![]));
     let log = Log::new();
@@ -366,7 +372,8 @@ async fn run_sim_generic<A: ConcurrencyAlgorithm + 'static>(
         .map(|c| c.at + c.cancel_after.unwrap_or(0))
         .max()
         .unwrap_or(0)
-        + 120;
+        + 120
+        + hold.unwrap_or(0);
     let mut task = vec![None; n];
     let mut saw_pending = false;
     let pending_flag = Arc::new(Mutex::new(false));
@@ -440,7 +447,14 @@ async fn run_sim_generic<A: ConcurrencyAlgorithm + 'static>(
                         drop(call);
                         return Err(AdaptiveError::LimitReached);
                     }
-                    call.await
+                    // polled through a reference; the resolved future object may be kept for a while
+                    let mut call = Box::pin(call);
+                    let r = call.as_mut().await;
+                    if let Some(h) = hold {
+                        tokio::time::sleep(Duration::from_millis(h)).await;
+                    }
+                    drop(call);
+                    r
                 };
                 task[i] = Some(sim.spawn_call(fut, map_outcome));
             }
@@ -536,6 +550,9 @@ async fn run_sim_generic<A: ConcurrencyAlgorithm + 'static>(
     if saw_sibling {
         classes.push("two_services_of_one_layer");
     }
+    if hold.is_some() {
+        classes.push("resolved_future_kept_alive");
+    }
     SimVerdict {
         violations: v,
         nontrivial: saw_drop_running || saw_panic || saw_unpolled_drop,
@@ -558,6 +575,7 @@ pub fn run_case(case: &AdaptiveCase) -> Report {
             initial,
             callers,
             order,
+            hold,
         } => {
             let v = if *vegas {
                 let a = Vegas::builder()
@@ -565,7 +583,7 @@ pub fn run_case(case: &AdaptiveCase) -> Report {
                     .min_limit(*min)
                     .max_limit(*max)
                     .build();
-                sim::run_case(run_sim_generic(a, callers, order))
+                sim::run_case(run_sim_generic(a, callers, order, *hold))
             } else {
                 let a = Aimd::builder()
                     .initial_limit(*initial)
@@ -573,7 +591,7 @@ pub fn run_case(case: &AdaptiveCase) -> Report {
                     .max_limit(*max)
                     .latency_threshold(Duration::from_millis(50))
                     .build();
-                sim::run_case(run_sim_generic(a, callers, order))
+                sim::run_case(run_sim_generic(a, callers, order, *hold))
             };
             let mut r = Report::default();
             if let Some(m) = v.violations.first() {
@@ -599,8 +617,8 @@ impl Property for C13 {
     }
     fn budget(&self, tier: Tier) -> (u32, usize) {
         match tier {
-            Tier::Quick => (30_000, 8),
-            Tier::Thorough => (600_000, 16),
+            Tier::Quick => (60_000, 8),
+            Tier::Thorough => (1_500_000, 16),
         }
     }
     fn run(&self, case: &AdaptiveCase) -> Report {
